@@ -264,6 +264,6 @@ def known_rejection_key(text):
     import re
 
     lt = logical_text(text)
-    if re.search(r"\(\s*\(\s*[-+.\w]+\s*,\s*[-+.\w]+\s*\)\s+\)", lt):
+    if re.search(r"\(\s*\(\s*[-+.\w ]+,\s*[-+.\w ]+\)\s+\)", lt):
         return "parenthesised-complex-literal-followed-by-blank"
     return None
